@@ -8,6 +8,14 @@ PY = '/venv/bin/python'
 
 MC = 'model_checking'
 CHECKS = {
+    'C05': (MC, 'explicit-state BFS over interleavings of queue/send/clock/execute_once on the real Interpreter, lock-step with a reference model of the two event queues',
+            'All interleavings (depth 6-8, <=3 entries per queue) of external/internal queue() with delays 0-2, clock advances and execute_once (with and without an enabled eventless transition) on three sink charts whose fragments send immediate and delayed events; each macro step must consume exactly the event the reference queues predict (identity by serial); at every state a drain proves exactly-once consumption.',
+            'Trusts the 60-line reference queue model; overdue entries are treated as equivalent up to their order; exhaustive only up to the stated depth/cap because the state space is infinite.',
+            '§4 C05'),
+    'C14': (MC, 'explicit-state search over all clock-operation sequences on the real SimulatedClock with a scripted time source, against an exact Fraction reference clock',
+            'Every sequence (depth 7-9) of start/stop/speed/time assignments (accepted and rejected) and real-time increments from a fresh SimulatedClock; after every operation value, exception, monotonicity and speed are compared with an exact reference; states merged only on identical concrete implementation state.',
+            'Real time does not advance inside one clock operation; time is read only through sismic.clock.clock.time. The SynchronizedClock clause is checked inside C13.',
+            '§4 C14'),
     'C01': (MC, 'exhaustive enumeration of configurations x pending-event situations x guard valuations on the real Interpreter, compared with a reference selection function',
             'Every legal configuration of every skeleton (<=5-6 states) is reached on the real interpreter; in each, every pending-event situation and every guard valuation with <=k true guards over probe transitions of every event/priority class is executed and compared with the documented selection (eventless first, inner-first, priority, guard visibility, event consumed iff used).',
             'Trusts refmodel.select (30 lines written from docs/execution.rst). Event names are only compared for equality and priorities for order, so 3 classes each are complete for <=3 competing transitions.',
